@@ -389,7 +389,9 @@ func fuses(a, b string) bool {
 	if strings.IndexByte(opChars, x) >= 0 && strings.IndexByte(opChars, y) >= 0 {
 		return true
 	}
-	if (x == '{' && y == '{') || (x == '}' && y == '}') {
+	// closing braces of nested object literals may stand side by side ("{a: {b: 1}}"); the print
+	// block itself keeps a blank before its own "}}" (see braces)
+	if x == '{' && y == '{' {
 		return true
 	}
 	if x == '{' && y == '-' {
